@@ -45,6 +45,11 @@ def map_op(m, op, is_ref):
     name, a = op[0], op[1:]
     if name == 'get':
         return m[k_(a[0])]
+    if name == 'txn':     # several operations in one transaction block
+        if is_ref:
+            return [map_op(m, o, True) for o in a[0]]
+        with m.transact():
+            return [map_op(m, o, False) for o in a[0]]
     if name == 'set':
         m[k_(a[0])] = val(a[1])
         return None
@@ -298,13 +303,20 @@ def sched_plan(tier):
         ([[('pop', 'a')], [('pop', 'a')]], init_f, None),
         ([[('items',)], [SETF]], init_2, None),
         ([[GET], [SETF], [SETI]], init_f, 1 if tier == 'quick' else 2),
-        ([[GET], [SETF, SETF2]], init_f, 2),      # two replacements in a row
-        ([[('getd', 'a')], [SETF2, SETF]], init_f, 2),
+        # two replacements in a row while one lookup is in flight
+        ([[GET], [SETF, SETF2]], init_f, 3),
+        ([[('getd', 'a')], [SETF2, SETF]], init_f, 3),
         ([[SD], [SD], [GET]], [], 1 if tier == 'quick' else 2),
+        # a transaction block that replaces a file-backed value: the key is
+        # present throughout, and both writes appear together
+        ([[GET], [('txn', (SETF, ('set', 'b', 2)))]], init_2, None),
+        ([[('get', 'b'), GET], [('txn', (SETF, ('set', 'b', 2)))]], init_2,
+         2 if tier == 'quick' else None),
     ]
     if tier == 'thorough':
         units += [
             ([[GET, GET], [SETF, SETI]], init_f, None),
+            ([[GET], [SETF], [SETF2]], init_f, 2),
             ([[PI], [SETF], [GET]], init_2, 3),
             ([[SD, GET], [('del', 'a'), SD]], init_i, None),
         ]
